@@ -1,41 +1,74 @@
 """C20 — caches and event dispatch obey their sequential spec under any schedule."""
-import warnings
-
 from vlib import core
 from harness import c20_events
+from harness import c20_cache
+from harness import c20_threaded
 
 PROP = 'C20'
-MODEL_MODULES = ['TenpyModel.Util.J', 'TenpyModel.C20.Events']
-LEAN_MODULES = ['TenpyModel.C20.PropsEvents']
-PROPS_MODULE = 'TenpyModel.C20.PropsEvents'
+MODEL_MODULES = ['TenpyModel.Util.J', 'TenpyModel.C20.Events', 'TenpyModel.C20.Cache', 'TenpyModel.C20.Threaded']
+PROPS_MODULES = ['TenpyModel.C20.PropsEvents', 'TenpyModel.C20.PropsCache', 'TenpyModel.C20.PropsThreaded']
+LEAN_MODULES = PROPS_MODULES
 LEVEL = 'proof'
-BUDGET = {'quick': 120, 'thorough': 1200}
+BUDGET = {'quick': 170, 'thorough': 1700}
 RULE = ('events: random histories of connect/disconnect/emit/emit_until_result (length 1-14, priorities from a '
         'small window so ties are frequent, disconnects of live, dead and never-issued ids) run on the real '
-        'EventHandler and on the Lean model; a case is non-trivial when it has >=2 live listeners at some emit '
-        'and at least one disconnect; distinct by content hash.')
+        'EventHandler and on the Lean model; non-trivial = >=2 live listeners at some emit and >=1 disconnect. '
+        'cache: random sequences (length 2-14; thorough 2-24) of set/get/[]/del/in/len/iter/set_short_term_keys/'
+        'preload/create_subcache/close/bool over <=4 keys and <=4 nested (sub-)caches, each run on Storage, '
+        'PickleStorage and Hdf5Storage, on the Lean DictCache model and on a dict oracle; non-trivial = a read of '
+        'a previously written key plus a delete/overwrite/short-term/preload/sub-cache operation. threaded: random '
+        'DictCache programs (length <=8, 1-3 keys, optional sub-cache, max_queue_size 1-3, 30% with an injected '
+        'disk fault) on the REAL Worker/ThreadedStorage/PickleStorage under a seeded cooperative scheduler; the '
+        'recorded schedule is replayed on the Lean transition system and labels, enabled sets, call results and '
+        'final state are compared; plus depth-first enumeration of all schedules (modulo idle polling, bounded '
+        'preemptions) of short programs over 2 keys; non-trivial = >=4 thread switches and >=1 disk operation by '
+        'the worker. stress: the same operation generator with real threads against the dict oracle with a 30 s '
+        'termination deadline. All cases distinct by content hash.')
 TRUSTED = ['Lean 4.33 kernel; axioms of every C20_* theorem ⊆ {propext, Classical.choice, Quot.sound}',
-           'hand-written model TenpyModel/C20/*.lean, tied to tenpy/tools/{events,cache,thread}.py by this '
-           'correspondence run (same histories, outputs diffed)',
-           'callbacks are abstracted to their identity; exceptions raised inside callbacks are not modelled']
-ASSUMPTIONS = ['Python list/sorted semantics (sorted is stable)']
+           'hand-written models TenpyModel/C20/{Events,Cache,Threaded}.lean, tied to tenpy/tools/{events,cache,'
+           'thread}.py by this correspondence run (same histories / same schedules, outputs and sync-point traces '
+           'diffed)',
+           'the cooperative queue/event/thread objects of harness/c20_sched.py stand for queue.Queue, '
+           'threading.Event and threading.Thread (documented contract; the stress run uses the real ones)',
+           'callbacks are abstracted to their identity; exceptions raised inside callbacks are not modelled; '
+           'pickle / h5py are taken to store and return equal values']
+ASSUMPTIONS = ['Python list/sorted semantics (sorted is stable)',
+               'dict/set operations and queue.Queue methods are atomic under the GIL (each is one scheduling step)',
+               'only one caller thread uses a cache (as in tenpy); keys are valid file names without "/"']
+
+PARTS = {'events': c20_events, 'cache': c20_cache, 'threaded': c20_threaded}
 
 
 def run(ctx):
     res = core.Result()
     res.merge(c20_events.run(ctx))
+    res.merge(c20_cache.run(ctx))
+    res.merge(c20_threaded.run(ctx))
     return res
 
 
 def search(ctx, reasons):
     res = core.Result()
     res.merge(c20_events.search(ctx))
+    res.merge(c20_cache.search(ctx))
+    res.merge(c20_threaded.search(ctx))
     return res
 
 
 def replay(ctx, payload):
     res = core.Result()
     case = payload.get('case', {})
-    if case.get('part') == 'events':
+    part = case.get('part')
+    if part == 'events':
         res.merge(c20_events.run_cases(ctx, [case['ops']], use_model=True))
+    elif part == 'cache':
+        ops = c20_cache.fix_cids([[o[0], 'sub' if o[1] == 'sub_dup' else o[1]] + list(o[2:]) for o in case['ops']])
+        if case.get('threaded'):
+            res.merge(c20_threaded.replay_stress(ctx, case))
+        else:
+            res.merge(c20_cache.run_cases(ctx, [ops], storages=[case.get('storage', 'Storage')]))
+    elif part == 'threaded':
+        res.merge(c20_threaded.run_batch(ctx, [case]))
+    elif part == 'stress':
+        res.merge(c20_threaded.replay_stress(ctx, case))
     return res
